@@ -71,7 +71,7 @@ def _fold_check(rr, f, acc, rid, what):
     return n
 
 
-@rule("FOLD", ["C01", "C05", "C04"], "conjunction / guard / sum folds keep what earlier iterations accumulated", engine="DF", floor=5)
+@rule("FOLD", ["C01", "C05", "C04", "C06"], "conjunction / guard / sum folds keep what earlier iterations accumulated", engine="DF", floor=5)
 def fold(prog, rr):
     sites = [
         (prog.method("ConstraintScopeModel", "build"), "ret", "conjunction of the scope's statements"),
